@@ -315,6 +315,8 @@ def c_format(fmt, args, text=lambda v: v):
         elif conv in "xX":
             if not isinstance(a, int):
                 return None
+            if a < 0:
+                a &= (1 << (64 if _len in ("l", "ll", "z") else 32)) - 1       # the argument is converted to the unsigned type
             v = ("%x" if conv == "x" else "%X") % a
         elif conv == "c":
             if not isinstance(a, int):
